@@ -211,6 +211,7 @@ type exported struct {
 	Tag      string // tag the archive is expected to name ("" = none known)
 	Name     string // full name recorded for the image (export ref common name)
 	Requests int
+	ExtFetch int // requests served by the external-URL host during the export
 }
 
 var dirSeq int
@@ -311,12 +312,17 @@ func doExport(ec ExportCase, scratch string) *exported {
 	ex.Err = rc.ImageExport(ctx, src, &buf, opts...)
 	_ = rc.Close(ctx, src)
 	ex.Requests = net.LogLen()
+	for _, e := range net.LogSince(0) {
+		if e.Host == extHost && e.Status == 200 && e.Method == "GET" {
+			ex.ExtFetch++
+		}
+	}
 	if ex.Err != nil {
 		return ex
 	}
 	ex.Raw = buf.Bytes()
 	top := g.Manifests[g.Top]
-	ex.Ents, ex.Findings = checkArchive(ex.Raw, arcExpect{Top: g.Top, TopBody: top.Body, TopMT: top.MediaType, Tag: ex.Tag, WantGzip: ec.Gzip, IsImage: !isIndexMT(top.MediaType)})
+	ex.Ents, ex.Findings = checkArchive(ex.Raw, arcExpect{Top: g.Top, TopBody: top.Body, TopMT: top.MediaType, Tag: ex.Tag, WantGzip: ec.Gzip, IsImage: wantsDockerManifest(g)})
 	return ex
 }
 
@@ -324,9 +330,13 @@ func doExport(ec ExportCase, scratch string) *exported {
 // import side
 
 type ImportCase struct {
-	Tgt string `json:"tgt"`           // regv (validating registry) | regn (not validating) | dir
-	Sel string `json:"sel,omitempty"` // "" none | name:<x> ImageWithImportName(x) | digest:<d> target ref by digest
+	Tgt    string `json:"tgt"`               // regv (validating registry) | regn (not validating) | dir
+	Sel    string `json:"sel,omitempty"`     // "" none | name:<x> ImageWithImportName(x) | digest:<d> target ref by digest
+	TgtTag string `json:"tgt_tag,omitempty"` // tag of the target reference (default "imp")
 }
+
+// traceImports makes doImport keep the request log (replay / VERIF_TRACE only).
+var traceImports bool
 
 type imported struct {
 	IC        ImportCase
@@ -348,6 +358,7 @@ type imported struct {
 	TopMT     string
 	TagsAfter map[string]string
 	Passes    int // how many times the importer rewound the archive (scans of the tar stream)
+	Trace     []string
 }
 
 // countRS counts rewinds of the archive reader: one per scan of the tar stream.
@@ -380,6 +391,10 @@ func short(d string) string {
 // walk the closure (the caller judges).
 func doImport(ic ImportCase, raw []byte, scratch string) *imported {
 	im := &imported{IC: ic}
+	tag := tgtTag
+	if ic.TgtTag != "" {
+		tag = ic.TgtTag
+	}
 	net := modelreg.NewNet()
 	var tgt ref.Ref
 	var err error
@@ -390,13 +405,13 @@ func doImport(ic ImportCase, raw []byte, scratch string) *imported {
 		h := net.AddHost(tgtHost, f)
 		im.TgtRepo = h.Repo(tgtRepo)
 		im.Store = audit.RepoStore{R: im.TgtRepo}
-		tgt, err = ref.New(tgtHost + "/" + tgtRepo + ":" + tgtTag)
+		tgt, err = ref.New(tgtHost + "/" + tgtRepo + ":" + tag)
 	case "dir":
 		im.TgtDir = newDir(scratch, "t")
 		dir := im.TgtDir
 		im.cleanup = func() { os.RemoveAll(dir) }
 		im.Store = audit.DirStore{Dir: dir}
-		tgt, err = ref.New("ocidir://" + relTo(dir) + ":" + tgtTag)
+		tgt, err = ref.New("ocidir://" + relTo(dir) + ":" + tag)
 	default:
 		err = fmt.Errorf("unknown target %q", ic.Tgt)
 	}
@@ -443,6 +458,9 @@ func doImport(ic ImportCase, raw []byte, scratch string) *imported {
 	_ = rc.Close(ctx, tgt)
 	for _, e := range net.LogSince(0) {
 		im.Requests++
+		if traceImports {
+			im.Trace = append(im.Trace, fmt.Sprintf("%s %s %s -> %d", e.Method, e.Kind, short(e.Ref), e.Status))
+		}
 		switch {
 		case e.Kind == "manifest-put":
 			im.ManPuts++
@@ -465,7 +483,7 @@ func doImport(ic ImportCase, raw []byte, scratch string) *imported {
 					im.Resolve = im.byDigest
 				}
 			} else {
-				im.Resolve = im.TgtRepo.Tags[tgtTag]
+				im.Resolve = im.TgtRepo.Tags[tag]
 			}
 			if m, ok := im.TgtRepo.Manifests[im.Resolve]; ok {
 				im.TopBody, im.TopMT = m.Body, m.MediaType
@@ -487,7 +505,7 @@ func doImport(ic ImportCase, raw []byte, scratch string) *imported {
 					}
 				}
 			} else {
-				im.Resolve = tags[tgtTag]
+				im.Resolve = tags[tag]
 			}
 			if b, ok := im.Store.Manifest(im.Resolve); ok {
 				im.TopBody = b
@@ -527,4 +545,18 @@ func sameSet(a, b map[string]bool) bool {
 
 func closureFromRepo(rp *modelreg.Repo, top string) (map[string]bool, []audit.Problem) {
 	return audit.Closure(audit.RepoStore{R: rp}, top, audit.ClosureOpts{})
+}
+
+// wantsDockerManifest: the exported image is a single image with a config descriptor, the only kind a
+// docker manifest.json can describe.
+func wantsDockerManifest(g *graphs.Graph) bool {
+	top := g.Manifests[g.Top]
+	if isIndexMT(top.MediaType) {
+		return false
+	}
+	var doc modelreg.ManDoc
+	if json.Unmarshal(top.Body, &doc) != nil {
+		return false
+	}
+	return doc.Config != nil && doc.Config.Digest != ""
 }
